@@ -95,6 +95,59 @@ def _rename_ifstar(n):
     return n
 
 
+COMP_OPS = ("lfor", "sfor", "gfor", "dfor")
+JUMP_OPS = ("return", "break", "continue")
+
+
+def _has_jump(n):
+    if isinstance(n, dict):
+        if n.get("op") in JUMP_OPS:
+            return True
+        if n.get("op") in ("fn", "defn", "setfn"):
+            return False          # a nested function is its own jump target
+        return any(_has_jump(v) for v in n.values())
+    if isinstance(n, list):
+        return any(_has_jump(v) for v in n)
+    return False
+
+
+def _feature_jump_in_comp_iterable(n):
+    """A comprehension whose first iterable contains return/break/continue aimed at the
+    enclosing function or loop (the iterable belongs to the enclosing scope)."""
+    if isinstance(n, dict):
+        if n.get("op") in COMP_OPS and _has_jump(n.get("it")):
+            return True
+        return any(_feature_jump_in_comp_iterable(v) for v in n.values())
+    if isinstance(n, list):
+        return any(_feature_jump_in_comp_iterable(v) for v in n)
+    return False
+
+
+def _strip_jumps(n):
+    if isinstance(n, dict):
+        if n.get("op") == "return":
+            return _strip_jumps(n["e"])
+        if n.get("op") in ("break", "continue"):
+            return {"op": "none"}
+        if n.get("op") in ("fn", "defn", "setfn"):
+            return n
+        return {k: _strip_jumps(v) for k, v in n.items()}
+    if isinstance(n, list):
+        return [_strip_jumps(v) for v in n]
+    return n
+
+
+def _normalise_comp_iterables(n):
+    if isinstance(n, dict):
+        out = {k: _normalise_comp_iterables(v) for k, v in n.items()}
+        if out.get("op") in COMP_OPS:
+            out["it"] = _strip_jumps(out["it"])
+        return out
+    if isinstance(n, list):
+        return [_normalise_comp_iterables(v) for v in n]
+    return n
+
+
 def check(prog, mode, use, text):
     """Returns (why|None, info)"""
     try:
@@ -153,6 +206,13 @@ def run_case(case):
             why2, _ = check(p2, mode, use, G.render_program(p2, mode, use))
             if why2 is None:
                 res["finding"] = "if-else-branch-headed-by-ifstar"
+        # attribution: the generator-function strategy evaluates the first iterable inside the
+        # generated function (C04's recorded mechanism), so a jump there aims at the wrong target
+        if "finding" not in res and _feature_jump_in_comp_iterable(prog):
+            p2 = _normalise_comp_iterables(prog)
+            why2, _ = check(p2, mode, use, G.render_program(p2, mode, use))
+            if why2 is None:
+                res["finding"] = "genfn-first-iterable-evaluated-inside-function"
     return res
 
 
